@@ -20,10 +20,12 @@ struct Sink {
     limit: usize,
     room: Option<usize>,
     zero_calls: usize,
+    cap: usize,
 }
 impl Sink {
-    fn new(limit: usize, room: Option<usize>) -> Self {
-        Sink { got: Vec::new(), limit, room, zero_calls: 0 }
+    fn new(limit: usize, room: Option<usize>, c: &Case) -> Self {
+        let payload: usize = c.iter().map(|f| f.len()).sum();
+        Sink { got: Vec::new(), limit, room, zero_calls: 0, cap: 2 * payload + (1 << 20) }
     }
 }
 impl Write for Sink {
@@ -37,6 +39,12 @@ impl Write for Sink {
         }
         if buf.is_empty() {
             self.zero_calls += 1;
+        }
+        // safety net for the shared machine: a writer above that loops forever while producing output
+        // (e.g. a mutated write_inner that re-feeds its input) is stopped here instead of eating memory.
+        // The cap is twice the case's total payload plus 1 MiB; deflate never expands that much.
+        if self.got.len() + n > self.cap {
+            return Err(io::Error::new(io::ErrorKind::Other, "full"));
         }
         if let Some(r) = self.room.as_mut() {
             *r -= n;
@@ -228,13 +236,13 @@ type HS = gix_features::hash::Write<Sink>;
 type HD = gix_features::hash::Write<D>;
 
 fn run_defl(c: &Case) -> (OpLog, D) {
-    let mut w = deflate::Write::new(Sink::new(f_u64(c, 1) as usize, None));
+    let mut w = deflate::Write::new(Sink::new(f_u64(c, 1) as usize, None, c));
     let log = run_ops(&mut w, &c[2.min(c.len())..], |w| w.reset());
     (log, w)
 }
 fn run_hw(c: &Case) -> (OpLog, HS) {
     let mut w = gix_features::hash::Write::new(
-        Sink::new(f_u64(c, 1) as usize, room_of(f_str(c, 2))),
+        Sink::new(f_u64(c, 1) as usize, room_of(f_str(c, 2)), c),
         gix_hash::Kind::Sha1,
     );
     let log = run_ops(&mut w, &c[3.min(c.len())..], |_| {});
@@ -242,7 +250,7 @@ fn run_hw(c: &Case) -> (OpLog, HS) {
 }
 fn run_hd(c: &Case) -> (OpLog, HD) {
     let mut w = gix_features::hash::Write::new(
-        deflate::Write::new(Sink::new(f_u64(c, 1) as usize, None)),
+        deflate::Write::new(Sink::new(f_u64(c, 1) as usize, None, c)),
         gix_hash::Kind::Sha1,
     );
     let log = run_ops(&mut w, &c[2.min(c.len())..], |_| {});
@@ -437,6 +445,9 @@ fn expectation(ops: &[Vec<u8>], log: &OpLog, has_finish: bool) -> Result<Expect,
             }
             b'f' => {
                 if n == usize::MAX {
+                    if has_finish {
+                        ex.early_refusal = Some(format!("op {i}: flush failed"));
+                    }
                     break;
                 }
                 if has_finish && !finished {
@@ -822,7 +833,7 @@ fn gen_deflate_case(rng: &mut Rng, tagname: &str, len: usize) -> Case {
 
 fn gen_hw_case(rng: &mut Rng, len: usize) -> Case {
     let data = gen_data(rng, len);
-    let limit = if rng.chance(1, 2) { 0 } else { (len / 300 + 1) * (1 + rng.below(40) as usize) };
+    let limit = if rng.chance(1, 3) { 0 } else { (len / 300 + 1) * (1 + rng.below(8) as usize) };
     let room = if rng.chance(1, 6) { num(rng.below(len as u64 + 10)) } else { vec![] };
     let mut c = vec![tag("hw"), num(limit), room];
     let sp = gen_splits(rng, len);
@@ -933,5 +944,5 @@ fn gen(rng: &mut Rng, n: usize) -> Vec<Case> {
 }
 
 fn main() {
-    main_with(Harness { gen, imp, prop, git: None, deadline: std::time::Duration::from_secs(300) });
+    main_with(Harness { gen, imp, prop, git: None, deadline: std::time::Duration::from_secs(120) });
 }
